@@ -78,6 +78,37 @@ func registerTimeStubs() {
 	specials["time.After"] = func(i *interpreter, fr *frame, fn *ssa.Function, args []value) value {
 		return &chanv{cap: 1, timer: true, name: "time.After"}
 	}
+	// time.NewTimer: a *Timer whose channel C is a timer channel of the model (it
+	// fires when no goroutine can make progress otherwise). Stop disarms it.
+	specials["time.NewTimer"] = func(i *interpreter, fr *frame, fn *ssa.Function, args []value) value {
+		tt := fn.Signature.Results().At(0).Type().(*types.Pointer).Elem()
+		st := zero(tt).(structure)
+		st[0] = &chanv{cap: 1, timer: true, name: "time.NewTimer"}
+		cell := new(value)
+		*cell = st
+		return cell
+	}
+	specials["(*time.Timer).Stop"] = func(i *interpreter, fr *frame, fn *ssa.Function, args []value) value {
+		p := args[0].(*value)
+		c, _ := (*p).(structure)[0].(*chanv)
+		if c == nil || !c.timer {
+			return false
+		}
+		i.logUndo(func() { c.timer = true })
+		c.timer = false
+		return true
+	}
+	specials["(*time.Timer).Reset"] = func(i *interpreter, fr *frame, fn *ssa.Function, args []value) value {
+		p := args[0].(*value)
+		c, _ := (*p).(structure)[0].(*chanv)
+		if c == nil {
+			return false
+		}
+		was := c.timer
+		i.logUndo(func() { c.timer = was })
+		c.timer = true
+		return was
+	}
 	specials["time.ParseDuration"] = func(i *interpreter, fr *frame, fn *ssa.Function, args []value) value {
 		errT := fn.Signature.Results().At(1).Type()
 		switch s := args[0].(type) {
